@@ -7,6 +7,8 @@ from props.regcommon import TYPES, SIZE, BITS, checks, values, hexv, default_for
 ID = "C01"
 DRIVER = "drv_regtable"
 HARNESS = "h_regtable"
+QUICK_LEVEL = "thorough"      # the larger case set costs only seconds
+THOROUGH_SEEDS = 4
 GEN = [constants.gen]
 TIE = ['Ufw.Tie.RegTable']
 RULE = ("table family: one target register of each of the 8 types x 8 constraint kinds (none, always-fail, min, max, range, three callbacks) "
